@@ -1182,3 +1182,83 @@ Example sound_nonvacuous :
              /\ fm_wf_b (mt st) = true /\ coherent_b (build_self f2_cmd) (mt st) = true
              /\ check_explicit (mt st) i_g PIsPresent = true.
 Proof. eexists. split; [vm_compute; reflexivity|]. split; [vm_compute; reflexivity|]. vm_compute. repeat split. Qed.
+
+(** * Part 6: totality of the two unrolling helpers (building blocks for "validate never
+    returns VPanic", shared with C01) *)
+Section Totality.
+Variable c : cmd.
+
+(** potential: pending work + the [requires] lists of the args not yet processed *)
+Fixpoint wsum (processed : list id) (l : list arg) : nat :=
+  match l with
+  | [] => O
+  | a :: t => (if mem_id (a_id a) processed then O else length (a_requires a)) + wsum processed t
+  end.
+Lemma mem_id_app x p q : mem_id x (p ++ q) = mem_id x p || mem_id x q.
+Proof. unfold mem_id. apply existsb_app. Qed.
+Lemma wsum_mono (p q : list id) l : (wsum (p ++ q) l <= wsum p l)%nat.
+Proof.
+  induction l as [|a t IH]; cbn [wsum]; [lia|]. rewrite mem_id_app.
+  destruct (mem_id (a_id a) p); cbn [orb]; [lia|]. destruct (mem_id (a_id a) q); lia.
+Qed.
+Lemma wsum_take (x : id) (p : list id) : forall l arg,
+  find (fun a => beq (a_id a) x) l = Some arg -> mem_id x p = false ->
+  (wsum (p ++ [x]) l + length (a_requires arg) <= wsum p l)%nat.
+Proof.
+  induction l as [|h t IH]; intros arg; cbn [find wsum]; [discriminate|].
+  destruct (beq (a_id h) x) eqn:E.
+  - intros [= <-] Hm. apply beq_eq in E. rewrite mem_id_app, E, Hm. cbn [orb mem_id existsb].
+    rewrite beq_refl. cbn [orb]. pose proof (wsum_mono p [x] t). lia.
+  - intros Hf Hm. specialize (IH arg Hf Hm). rewrite mem_id_app. cbn [mem_id existsb].
+    assert (beq (a_id h) x || false = false) as ->. { now rewrite E. }
+    rewrite orb_false_r. lia.
+Qed.
+Lemma wsum_nil l : wsum [] l = length (flat_map a_requires l).
+Proof. induction l as [|a t IH]; cbn [wsum flat_map mem_id existsb]; [reflexivity|]. rewrite app_length. lia. Qed.
+
+Lemma filter_map_length {A B} (f : A -> option B) l : (length (filter_map f l) <= length l)%nat.
+Proof. induction l as [|a t IH]; cbn; [lia|]. destruct (f a); cbn; lia. Qed.
+Lemma ur_inner_length : forall l args pushed args' pushed',
+  fold_left (ur_inner c) l (args, pushed) = (args', pushed') -> (length pushed' <= length pushed + length l)%nat.
+Proof.
+  induction l as [|r t IH]; intros args pushed args' pushed'; cbn [fold_left].
+  - intros [= _ <-]. cbn. lia.
+  - unfold ur_inner at 2. intros H. apply IH in H. cbn [length].
+    destruct (find_arg c r) as [req|]; [destruct (negb _)|]; cbn [length] in H; lia.
+Qed.
+
+Lemma unroll_requires_loop_total func : forall fuel r_vec processed args,
+  (length r_vec + wsum processed (c_args c) < fuel)%nat ->
+  exists out, unroll_requires_loop c func fuel r_vec processed args = Some out.
+Proof.
+  induction fuel as [|fuel IH]; intros r_vec processed args Hlt; [lia|]. cbn [unroll_requires_loop].
+  destruct r_vec as [|a rest]; [eauto|]. cbn [length] in Hlt.
+  destruct (mem_id a processed) eqn:Em.
+  - apply IH. lia.
+  - destruct (find_arg c a) as [arg|] eqn:Ea.
+    + fold (ur_inner c). destruct (fold_left (ur_inner c) _ _) as [args' pushed] eqn:Ef.
+      apply ur_inner_length in Ef. cbn [length] in Ef.
+      pose proof (filter_map_length func (a_requires arg)).
+      pose proof (wsum_take a processed (c_args c) arg Ea Em).
+      apply IH. rewrite app_length. lia.
+    + apply IH. pose proof (wsum_mono processed [a] (c_args c)). lia.
+Qed.
+
+(** [unroll_arg_requires] never runs out of fuel (no hypothesis on the command at all) *)
+Theorem unroll_arg_requires_total func a : exists out, unroll_arg_requires c func a = Some out.
+Proof.
+  unfold unroll_arg_requires. apply unroll_requires_loop_total. unfold requires_fuel.
+  rewrite wsum_nil. cbn [length]. lia.
+Qed.
+
+(** [unroll_args_in_group] succeeds for every group of a command whose group members are args *)
+Theorem unroll_args_in_group_total g : rel_wf c = true -> In g (c_groups c) ->
+  exists members, unroll_args_in_group c (g_id g) = Some members.
+Proof.
+  intros W Hin. destruct (rel_wf_group c g W Hin) as [Hf Hm].
+  unfold unroll_args_in_group. cbn [unroll_group_loop]. rewrite Hf. fold (ug_inner c).
+  destruct (ug_inner_spec c (g_args g) [] []) as (args' & E & _).
+  { intros n Hn. destruct (Hm n Hn) as (a & ->). reflexivity. }
+  rewrite E. cbn [app]. eauto.
+Qed.
+End Totality.
